@@ -319,6 +319,10 @@ func checkC06(c *Case, st *Stats) *Violation {
 		}
 		got, err = readAllLimited(zr, c.Reads, 0)
 	}
+	if len(c.Dict) > 0 && bytes.Equal(got, append(append([]byte{}, c.Dict...), data...)) {
+		// F-C01-1: both compress/zlib's and fastgo's dictionary Writers are compress/flate's NewWriterDict
+		return viol(c, "dict-prepended/zlib", "dictionary stream decodes to the %d dictionary bytes followed by the %d data bytes (%v; level %d)", len(c.Dict), len(data), err, lvl)
+	}
 	if err != io.EOF {
 		return viol(c, "interop-error/"+key, "opposite implementation ends with %v after %d of %d bytes (level %d)", err, len(got), len(data), lvl)
 	}
@@ -391,9 +395,9 @@ func checkC07(c *Case, st *Stats) *Violation {
 		// success: the bytes handed out must match a trailer that really is in the input
 		ok := false
 		if single {
-			ok = gzipFirstMemberConsistent(m, run.Out)
+			ok = gzipFirstMemberConsistent(m, run.Out) || gzipMembersConsistentRef(m, run.Out, true)
 		} else if c.Pkg == "gzip" {
-			ok = gzipMembersConsistent(m, run.Out)
+			ok = gzipMembersConsistent(m, run.Out) || gzipMembersConsistentRef(m, run.Out, false)
 		} else if len(m) >= 4 {
 			ok = binary.BigEndian.Uint32(m[len(m)-4:]) == adler32.Checksum(run.Out) || zlibTrailerMatches(m, run.Out)
 		}
@@ -436,6 +440,77 @@ func gzipMembersConsistent(m, out []byte) bool {
 	}
 	got, err := io.ReadAll(zr)
 	return err == nil && bytes.Equal(got, out)
+}
+
+// gzipHeaderLen returns the length of the gzip member header at the start of b (RFC 1952 section 2.3).
+func gzipHeaderLen(b []byte) (int, bool) {
+	if len(b) < 10 || b[0] != 0x1f || b[1] != 0x8b || b[2] != 8 {
+		return 0, false
+	}
+	flg := b[3]
+	n := 10
+	if flg&4 != 0 {
+		if len(b) < n+2 {
+			return 0, false
+		}
+		n += 2 + int(b[n]) + int(b[n+1])<<8
+	}
+	for _, bit := range []byte{8, 16} {
+		if flg&bit != 0 {
+			for {
+				if n >= len(b) {
+					return 0, false
+				}
+				n++
+				if b[n-1] == 0 {
+					break
+				}
+			}
+		}
+	}
+	if flg&2 != 0 {
+		n += 2
+	}
+	if n > len(b) {
+		return 0, false
+	}
+	return n, true
+}
+
+// gzipMembersConsistentRef decides "the bytes handed out match trailers that really are in the input" without
+// the standard library's inflater (which rejects some streams fastgo legitimately accepts, e.g. incomplete
+// codes whose unassigned codewords are never used): each member's body is decoded by the permissive reference
+// inflater, must equal the corresponding slice of out, and that slice must have the CRC-32 and length stored
+// in the 8 bytes that follow the body in m.
+func gzipMembersConsistentRef(m, out []byte, firstOnly bool) bool {
+	pos, o := 0, 0
+	for pos < len(m) {
+		hl, ok := gzipHeaderLen(m[pos:])
+		if !ok {
+			return false
+		}
+		res := RefInflate(m[pos+hl:], false, nil, 0)
+		if res.Verdict != "done" {
+			return false
+		}
+		end := pos + hl + (res.EndBit+7)/8
+		if end+8 > len(m) {
+			return false
+		}
+		seg := res.Out
+		if o+len(seg) > len(out) || !bytes.Equal(out[o:o+len(seg)], seg) {
+			return false
+		}
+		if crc32.ChecksumIEEE(seg) != binary.LittleEndian.Uint32(m[end:]) || uint32(len(seg)) != binary.LittleEndian.Uint32(m[end+4:]) {
+			return false
+		}
+		o += len(seg)
+		pos = end + 8
+		if firstOnly {
+			break
+		}
+	}
+	return o == len(out)
 }
 
 func firstGzipMember(m []byte) ([]byte, error) {
